@@ -186,8 +186,32 @@ func runC18Optset(c *Ctx) {
 // derivesFromParam: v is the parameter itself or a load of the cell the
 // parameter was spilled into (the idiom for `c.field = x; return c`).
 func derivesFromParam(v ssa.Value, par *ssa.Parameter) bool {
+	return derivesFromParamD(v, par, 0)
+}
+
+func derivesFromParamD(v ssa.Value, par *ssa.Parameter, d int) bool {
 	if v == ssa.Value(par) {
 		return true
+	}
+	// handed to a helper introduced since the baseline that returns what it received (with fields updated)
+	if call, ok := v.(*ssa.Call); ok && d < 3 {
+		if h := staticCallee(call); h != nil && isNewHelper(h) && len(h.Blocks) > 0 {
+			for k, a := range call.Call.Args {
+				if k >= len(h.Params) || !derivesFromParamD(a, par, d+1) {
+					continue
+				}
+				all := true
+				rets := returnsOf(h)
+				for _, r := range rets {
+					if len(r.Results) != 1 || !derivesFromParamD(r.Results[0], h.Params[k], d+1) {
+						all = false
+					}
+				}
+				if all && len(rets) > 0 {
+					return true
+				}
+			}
+		}
 	}
 	if ld, ok := v.(*ssa.UnOp); ok && ld.Op == token.MUL {
 		if al, ok := ld.X.(*ssa.Alloc); ok {
@@ -1185,10 +1209,72 @@ func init() {
 
 func runC09Probe(c *Ctx) {
 	n := 0
+	// guardedAt: at `at`, a dominating negative line/line intersection test against poly.Boundary();
+	// when poly is a parameter of a helper introduced since the baseline, at every call site of the helper
+	var guardedAt func(at ssa.Instruction, polyVal ssa.Value, d int) bool
+	guardedAt = func(at ssa.Instruction, polyVal ssa.Value, d int) bool {
+		poly, _ := accessPath(polyVal)
+		for _, g := range guardsAt(at) {
+			call, isCall := g.Cond.(*ssa.Call)
+			if !isCall || g.Truth || !strings.HasPrefix(calleeName(call), "geom.hasIntersectionMultiLineStringWithMultiLineString") {
+				continue
+			}
+			for _, a := range call.Call.Args {
+				if dependsOn(a, func(v ssa.Value) bool {
+					bc, ok := v.(*ssa.Call)
+					if !ok {
+						return false
+					}
+					cal := staticCallee(bc)
+					if cal == nil || cal.Name() != "Boundary" {
+						return false
+					}
+					rs, _ := accessPath(bc.Call.Args[0])
+					return rs == poly
+				}) {
+					return true
+				}
+			}
+		}
+		h := at.Parent()
+		par, isPar := stripLoad(polyVal).(*ssa.Parameter)
+		if !isPar {
+			// a spilled parameter: the cell holds the parameter
+			if ld, ok := polyVal.(*ssa.UnOp); ok {
+				if st := uniqueStore(ld.X); st != nil {
+					par, isPar = st.(*ssa.Parameter)
+				}
+			}
+		}
+		if d < 3 && isPar && isNewHelper(h) && h.Parent() == nil {
+			k := paramIndex(h, par)
+			sites := c.P.callersOf(h)
+			if k < 0 || len(sites) == 0 {
+				return false
+			}
+			for _, cs := range sites {
+				if k >= len(cs.Common().Args) || !guardedAt(cs, cs.Common().Args[k], d+1) {
+					return false
+				}
+			}
+			return true
+		}
+		return false
+	}
+	seen := map[*ssa.Function]bool{}
+	var fs []*ssa.Function
 	for _, f := range c.P.Funcs {
 		if pkgOf(f) != "geom" || !strings.HasPrefix(f.Name(), "hasIntersection") {
 			continue
 		}
+		for _, g := range withNewHelpers(f) {
+			if !seen[g] {
+				seen[g] = true
+				fs = append(fs, g)
+			}
+		}
+	}
+	for _, f := range fs {
 		fn := FuncName(f)
 		eachCall(f, func(ci ssa.CallInstruction) {
 			name := calleeName(ci)
@@ -1203,36 +1289,14 @@ func runC09Probe(c *Ctx) {
 					return false
 				}
 				cal := staticCallee(call)
-				return cal != nil && (cal.Name() == "StartPoint" || cal.Name() == "EndPoint" || cal.Name() == "PointN" && false)
+				return cal != nil && (cal.Name() == "StartPoint" || cal.Name() == "EndPoint")
 			})
 			if !probe {
 				return
 			}
 			n++
 			poly, _ := accessPath(args[1])
-			ok := false
-			for _, g := range guardsAt(ci) {
-				call, isCall := g.Cond.(*ssa.Call)
-				if !isCall || g.Truth || !strings.HasPrefix(calleeName(call), "geom.hasIntersectionMultiLineStringWithMultiLineString") {
-					continue
-				}
-				for _, a := range call.Call.Args {
-					if dependsOn(a, func(v ssa.Value) bool {
-						bc, ok := v.(*ssa.Call)
-						if !ok {
-							return false
-						}
-						cal := staticCallee(bc)
-						if cal == nil || cal.Name() != "Boundary" {
-							return false
-						}
-						rs, _ := accessPath(bc.Call.Args[0])
-						return rs == poly
-					}) {
-						ok = true
-					}
-				}
-			}
+			ok := guardedAt(ci, args[1], 0)
 			c.Check(ok, ci.Pos(), fn, "vertex probe against "+trunc(poly), "dominated by `no line of the other operand meets "+trunc(poly)+".Boundary()`", "a start vertex is tested against "+poly+" without a dominating negative intersection test against the complete boundary of "+poly+" (all rings): the probe's verdict does not extend to the rest of the line")
 		})
 	}
@@ -1410,7 +1474,7 @@ func init() {
 		ID:    "C01.peroperand",
 		Props: []string{"C01", "C02", "C10"},
 		Doc:   "per-operand passes do not share scratch state: a function literal run once per operand (passed to forEachOperand) and the closures nested in it write only to maps created inside that literal — a visited/memo map captured from the enclosing function carries operand A's traversal into operand B's pass (faces visited for A are never entered for B)",
-		Floor: 3,
+		Floor: 1,
 		Run:   runC01PerOperand,
 	})
 }
@@ -1610,8 +1674,8 @@ func runC01PerOperand(c *Ctx) {
 			c.Check(bad == "", lit.Pos(), fn, "scratch maps of the per-operand pass", "created inside the pass", "the per-operand pass "+bad+": state of the first operand's pass leaks into the second's")
 		}
 	}
-	if n < 3 {
-		c.Errorf("only %d per-operand function literals found, expected >= 3", n)
+	if n < 1 {
+		c.Errorf("no per-operand function literal found (%d)", n)
 	}
 }
 
